@@ -3,6 +3,11 @@
 //! op: `derive <schema-id> <pairs>`
 //!   <schema-id> ∈ basic | aliased | tok | nested | with   (the derived structs below; the Lean
 //!                 driver carries the same structs as `FieldSpec` lists)
+//!               | <struct>~<spec>   a struct of the GENERATED family (c18_family.rs, written by
+//!                 tools/gen_c18_family.py: 66 structs over every per-field combination of kind x
+//!                 default x type x alias, 12 token-attribute structs); <spec> is its FieldSpec text
+//!                 `name:kind:default:type:alias:token/...`, which the driver reads from the line and
+//!                 the harness checks against the generated table (no second table to drift)
 //!   <pairs>     = `-` | item (`,` item)*           the ordered (key, value) pairs of the document
 //!   item        = [`#`|`%`] key `=` val            `#` = in the BINARY rendering the key is written
 //!                                                  as a token id (otherwise as a string);
@@ -42,6 +47,9 @@ use serde::Deserialize;
 use std::borrow::Cow;
 use std::collections::HashMap;
 
+#[path = "c18_family.rs"]
+mod family;
+
 #[derive(Debug, Default, Clone, Copy)]
 pub struct Flavor;
 impl BinaryFlavor for Flavor {
@@ -61,7 +69,7 @@ impl Encoding for Flavor {
 /// binary token id of a name = 0x2d00 + index; names starting with 'u' are NOT in the resolver
 pub const NAMES: &[&str] = &[
     "a", "b", "c", "d", "e", "f", "x", "core", "l", "dd", "both", "g", "bee", "u1", "u2", "inner", "inners", "last", "u", "v", "w",
-    "cores", "zz", "yy", "k1", "k2",
+    "cores", "zz", "yy", "k1", "k2", "f0", "f1", "f2", "f3", "a0", "a1", "a2", "a3",
 ];
 fn name_id(k: &str) -> Option<u16> {
     NAMES.iter().position(|n| *n == k).map(|i| 0x2d00 + i as u16)
@@ -580,9 +588,34 @@ fn run_bin<T: Show + serde::de::DeserializeOwned>(bin: &[u8], case: &str, obs: &
     rs.remove(0).1
 }
 
+/// family schema id `F12~<spec>`: the struct id and the FieldSpec text (must be the generated one)
+fn family_id(id: &str) -> Option<(&str, &str)> {
+    let (name, spec) = id.split_once('~')?;
+    let table = family::FAMILY.iter().find(|(n, _)| *n == name)?;
+    if table.1 != spec {
+        return None;
+    }
+    Some((name, spec))
+}
+
+/// (answering key, kind letter) of every field of a family spec
+fn family_fields(spec: &str) -> Vec<(String, char, char)> {
+    spec.split('/')
+        .map(|f| {
+            let w: Vec<&str> = f.split(':').collect();
+            let key = if w[4] == "-" { w[0] } else { w[4] };
+            (key.to_string(), w[1].chars().next().unwrap(), w[3].chars().next().unwrap())
+        })
+        .collect()
+}
+
 fn run_schema(id: &str, p: &[Item], case: &str, obs: &mut Obs) -> Option<(String, String)> {
     let text = render_text(p);
     let bin = render_binary(p);
+    if id.contains('~') {
+        let (name, _) = family_id(id)?;
+        return family::run(name, &text, &bin, case, obs);
+    }
     Some(match id {
         "basic" => (run_text::<Basic>(&text, case, obs), run_bin::<Basic>(&bin, case, obs)),
         "aliased" => (run_text::<Aliased>(&text, case, obs), run_bin::<Aliased>(&bin, case, obs)),
@@ -651,24 +684,43 @@ fn reference(id: &str, p: &[Item]) -> Option<String> {
 /// a shuffle that keeps the relative order of the occurrences of every key except that
 /// non-last occurrences of take_last keys may move anywhere before the last one
 fn shuffle_preserving(id: &str, p: &[Item], rng: &mut Rng) -> Vec<Item> {
+    let fam_take_last: Vec<String> = match id.split_once('~') {
+        Some((_, spec)) => family_fields(spec).into_iter().filter(|f| f.1 == 't').map(|f| f.0).collect(),
+        None => vec![],
+    };
+    let fam_refs: Vec<&str> = fam_take_last.iter().map(|s| s.as_str()).collect();
     let take_last: &[&str] = match id {
         "basic" => &["f"],
         "aliased" => &["l", "g"],
         "tok" => &["f"],
         "nested" => &["last"],
         "with" => &["f"],
-        _ => &[],
+        _ => &fam_refs,
     };
-    // random interleaving of the per-key subsequences
+    // keys that can select the same field in one of the renderings (a name / alias as a string, the
+    // un-aliased name as a token id in a token struct) are kept in their relative order together
+    let group = |k: &str| -> String {
+        let b = k.as_bytes();
+        if id.contains('~') && b.len() == 2 && (b[0] == b'f' || b[0] == b'a') && b[1].is_ascii_digit() {
+            format!("g{}", b[1] as char)
+        } else if id == "tok" && k == "bee" {
+            "b".to_string()
+        } else {
+            k.to_string()
+        }
+    };
+    // random interleaving of the per-group subsequences
     let mut keys: Vec<String> = vec![];
     for it in p {
-        if !keys.contains(&it.key) {
-            keys.push(it.key.clone());
+        if !keys.contains(&group(&it.key)) {
+            keys.push(group(&it.key));
         }
     }
-    let mut queues: Vec<Vec<Item>> = keys.iter().map(|k| p.iter().filter(|it| &it.key == k).cloned().collect()).collect();
+    let mut queues: Vec<Vec<Item>> = keys.iter().map(|k| p.iter().filter(|it| &group(&it.key) == k).cloned().collect()).collect();
     for (k, q) in keys.iter().zip(queues.iter_mut()) {
-        if take_last.contains(&k.as_str()) && q.len() > 2 {
+        let uniform = q.iter().all(|it| it.key == q[0].key && it.as_id == q[0].as_id);
+        let _ = k;
+        if uniform && take_last.contains(&q[0].key.as_str()) && q.len() > 2 {
             // permute all but the last
             let n = q.len() - 1;
             for i in (1..n).rev() {
@@ -702,9 +754,14 @@ pub fn exec(w: &[&str], obs: &mut Obs) -> Option<String> {
         ["derive", id, pairs] => {
             let case = w.join(" ");
             let p = parse_pairs(pairs)?;
+            if id.contains('~') && family_id(id).is_none() {
+                obs.violation("spec-mismatch", &case, "the FieldSpec text on the line is not the generated one of that struct");
+                return Some("spec-mismatch".into());
+            }
             let (t, b) = run_schema(id, &p, &case, obs)?;
-            obs.count(&format!("{}:T:{}", id, if t.starts_with("err:") { t.split(':').take(2).collect::<Vec<_>>().join(":") } else { "ok".into() }));
-            obs.count(&format!("{}:B:{}", id, if b.starts_with("err:") { b.split(':').take(2).collect::<Vec<_>>().join(":") } else { "ok".into() }));
+            let hid = if id.contains('~') { if id.starts_with('T') { "family-tok" } else { "family" } } else { *id };
+            obs.count(&format!("{}:T:{}", hid, if t.starts_with("err:") { t.split(':').take(2).collect::<Vec<_>>().join(":") } else { "ok".into() }));
+            obs.count(&format!("{}:B:{}", hid, if b.starts_with("err:") { b.split(':').take(2).collect::<Vec<_>>().join(":") } else { "ok".into() }));
             let numeric_key = p.iter().any(|it| it.key.bytes().all(|c| c.is_ascii_digit()));
             let any_id = p.iter().any(|it| it.as_id || it.as_i32);
             if !numeric_key && !any_id && t != b {
@@ -992,6 +1049,69 @@ pub fn gen(g: &mut Gen) {
             count += 1;
         }
         g.count(&format!("adversarial-unknown-values:{}", count));
+    }
+    // 3d. the systematic struct family (c18_family.rs): for every struct all multiplicity vectors
+    // in {0,1,2}^fields in one random order each, plus random documents with multiplicities 0..3,
+    // un-aliased names, unknown fields and keys written as token ids
+    {
+        assert_eq!(name_id("f0"), Some(0x2d00 + family::F_BASE as u16), "NAMES / F_BASE out of step");
+        let n_random = g.budget(45, 500);
+        let mut total = 0usize;
+        for (name, spec) in family::FAMILY {
+            let id = format!("{}~{}", name, spec);
+            let fields = family_fields(spec);
+            let nf = fields.len();
+            let mut counter = 1i32;
+            let mut value_for = |rng: &mut Rng, f: &(String, char, char)| -> Val {
+                counter += 1;
+                let n = counter;
+                match (f.1, f.2) {
+                    (_, 's') => Val::Q(format!("v{}", n).into_bytes()),
+                    ('d', 'v') => Val::Arr((0..rng.below(3)).map(|i| Val::Int(n * 10 + i as i32)).collect()),
+                    (_, 'v') if f.1 != 'd' => Val::Arr((0..rng.below(3)).map(|i| Val::Int(n * 10 + i as i32)).collect()),
+                    _ => Val::Int(n),
+                }
+            };
+            for code in 0..3usize.pow(nf as u32) {
+                let mut p: Vec<Item> = vec![];
+                let mut c = code;
+                for f in &fields {
+                    for _ in 0..(c % 3) {
+                        let val = value_for(&mut g.rng, f);
+                        p.push(Item { as_i32: false, as_id: g.rng.chance(1, 3), key: f.0.clone(), val });
+                    }
+                    c /= 3;
+                }
+                for i in (1..p.len()).rev() { let j = g.rng.below(i + 1); p.swap(i, j); }
+                emit(g, &id, &p);
+                total += 1;
+            }
+            for _ in 0..n_random {
+                let mut p: Vec<Item> = vec![];
+                for (i, f) in fields.iter().enumerate() {
+                    let m = match g.rng.below(10) { 0 | 1 => 0, 2 => 2, 3 => 3, _ => 1 };
+                    for _ in 0..m {
+                        let val = value_for(&mut g.rng, f);
+                        p.push(Item { as_i32: false, as_id: g.rng.chance(1, 2), key: f.0.clone(), val });
+                    }
+                    // the un-aliased name of an aliased field must not match (by name; by token id it does)
+                    if f.0.starts_with('a') && g.rng.chance(1, 3) {
+                        let val = value_for(&mut g.rng, f);
+                        p.push(Item { as_i32: false, as_id: g.rng.chance(1, 2), key: format!("f{}", i), val });
+                    }
+                }
+                for i in (1..p.len()).rev() { let j = g.rng.below(i + 1); p.swap(i, j); }
+                let nu = g.rng.below(3);
+                for _ in 0..nu {
+                    let pos = g.rng.below(p.len() + 1);
+                    let it = unknown_item(&mut g.rng, !name.starts_with('T'), 900 + p.len() as i32);
+                    p.insert(pos, it);
+                }
+                emit(g, &id, &p);
+                total += 1;
+            }
+        }
+        g.count(&format!("family:{}-structs:{}-cases", family::FAMILY.len(), total));
     }
     // 4. probes
     for s in [
